@@ -57,7 +57,7 @@ def book_frame(book, info, int_sizes=False, extra_rows=()):
             continue
         idx.append(i)
         rows.append({
-            "state": "open", "type": "CALL" if info[i]["kind"] == "C" else "PUT", "strike_price": int(info[i]["K"]),
+            "state": "open" if b.get("live", True) else "closed", "type": "CALL" if info[i]["kind"] == "C" else "PUT", "strike_price": int(info[i]["K"]),
             "expiry_time": ts_of(info[i]["exp"]), "underlying_price": float(b["und"]), "mark_price": float(b["mark"]),
             "delta": 0.5, "gamma": 0.001, "asks": side_to_py(b["asks"], int_sizes), "bids": side_to_py(b["bids"], int_sizes)})
     for name, und in extra_rows:
